@@ -65,8 +65,9 @@ def make_overlay(scratch, pkgs, instr_pkgs):
         rd = os.path.join(REPO, p)
         pkgname = None
         if os.path.isdir(hd):
+            excl = [x for x in os.environ.get("VERIF_EXCLUDE", "").split(",") if x]
             for f in sorted(os.listdir(hd)):
-                if f.endswith(".go"):
+                if f.endswith(".go") and f not in excl:
                     replace[os.path.join(rd, f)] = os.path.join(hd, f)
         for f in sorted(os.listdir(rd)):
             if f.endswith("_test.go") and not f.startswith("zzverif"):
